@@ -111,7 +111,8 @@ class Ctx:
     # ------------------------------------------------------------------ Coq
     def copy_coq(self):
         src = os.path.join(VERIF, "coq")
-        sh(["rsync", "-a", src + "/", self.coq + "/"], shell=False)
+        with setup_lock(shared=True):
+            sh(["rsync", "-a", src + "/", self.coq + "/"], shell=False)
         return self.coq
 
     def regen(self):
@@ -179,7 +180,7 @@ class Ctx:
         tgt = "Properties/%s.vo" % pid
         cone = self.cone("Properties/%s.v" % pid)
         bad = []
-        for f in glob.glob(os.path.join(self.coq, "**", "*.v"), recursive=True):
+        for f in [os.path.join(self.coq, c) for c in cone]:
             txt = strip_comments(open(f).read())
             for m in FORBIDDEN.finditer(txt):
                 bad.append("%s: %s" % (os.path.relpath(f, self.coq), m.group(0)))
@@ -254,30 +255,29 @@ class Ctx:
         return os.path.join(self.bin, out)
 
     # ------------------------------------------------------------------ OCaml (extracted model + driver)
-    def ocaml_driver(self, name, extracted, driver_ml, cstubs=()):
-        """extracted: list of module basenames produced under coq/Extract/out/ (e.g. ['hlmodel']);
-        driver_ml: path under /verif/driver.  Built in scratch from the *scratch* coq dir (so the
-        extracted code always reflects the regenerated Gen files)."""
+    def ocaml_driver(self, name, module, driver_ml, cstubs=()):
+        """module: basename extracted to coq/Extract/<module>.ml by coq/Extract/Ex*.v (monolithic
+        `Extraction "<module>.ml" ...`, which must list Base.ExtractBase.dlib_anchor);
+        driver_ml: file under /verif/driver.  main.ml = `open <Module>` + dlib.ml + driver.  Built in
+        scratch from the *scratch* coq dir, so the extracted code reflects the regenerated Gen files."""
         bdir = os.path.join(self.scratch, "ml." + name)
         os.makedirs(bdir, exist_ok=True)
-        files = []
-        for m in extracted:
-            for ext in (".mli", ".ml"):
-                s = os.path.join(self.coq, "Extract", m + ext)
-                if not os.path.exists(s):
-                    raise TieBroken("extracted module %s missing (Coq build failed?)" % m)
-                shutil.copy(s, bdir)
-                files.append(m + ext)
-        for extra in ([os.path.join(VERIF, "driver", "dlib.ml")] if os.path.exists(os.path.join(VERIF, "driver", "dlib.ml")) else []) + [os.path.join(VERIF, "driver", driver_ml)]:
-            shutil.copy(extra, bdir)
-            files.append(os.path.basename(extra))
+        for ext in (".mli", ".ml"):
+            s = os.path.join(self.coq, "Extract", module + ext)
+            if not os.path.exists(s):
+                raise TieBroken("extracted module %s missing (Coq build of Extract/ failed?)" % module)
+            shutil.copy(s, bdir)
+        with open(os.path.join(bdir, "main.ml"), "w") as fh:
+            fh.write("open %s\n" % (module[0].upper() + module[1:]))
+            fh.write(open(os.path.join(VERIF, "driver", "dlib.ml")).read() + "\n")
+            fh.write(open(os.path.join(VERIF, "driver", driver_ml)).read())
         cs = []
         for c in cstubs:
             shutil.copy(os.path.join(VERIF, "driver", c), bdir)
             cs.append(c)
         out = os.path.join(self.bin, name)
-        rc, o, e = sh(["ocamlfind", "ocamlopt", "-w", "-a", "-package", "str,unix", "-linkpkg"] + cs + files + ["-o", out],
-                      cwd=bdir, shell=False, timeout=600)
+        rc, o, e = sh(["ocamlfind", "ocamlopt", "-w", "-a", "-O2", "-package", "str,unix", "-linkpkg"] + cs +
+                      [module + ".mli", module + ".ml", "main.ml", "-o", out], cwd=bdir, shell=False, timeout=900)
         if rc != 0:
             raise TieBroken("OCaml driver %s does not build:\n%s" % (name, (o + e)[-3000:]))
         return out
@@ -285,6 +285,29 @@ class Ctx:
 
 class TieBroken(Exception):
     pass
+
+
+class setup_lock:
+    """./check --setup builds coq/ in place (exclusive); checks copy it (shared)"""
+    def __init__(self, shared):
+        self.shared = shared
+    def __enter__(self):
+        import fcntl
+        self.fh = open(os.path.join(VERIF, ".setup.lock"), "w")
+        fcntl.flock(self.fh, fcntl.LOCK_SH if self.shared else fcntl.LOCK_EX)
+    def __exit__(self, *a):
+        import fcntl
+        fcntl.flock(self.fh, fcntl.LOCK_UN)
+        self.fh.close()
+
+
+def scan_forbidden(coqdir):
+    bad = []
+    for f in glob.glob(os.path.join(coqdir, "**", "*.v"), recursive=True):
+        txt = strip_comments(open(f).read())
+        for m in FORBIDDEN.finditer(txt):
+            bad.append("%s: %s" % (os.path.relpath(f, coqdir), m.group(0)))
+    return bad
 
 
 def strip_comments(txt):
